@@ -9,6 +9,7 @@ from __future__ import annotations
 import asyncio
 import copy
 import logging
+import time
 
 from .. import drive, gen, observe, oracle
 from ..observe import (Event, Interpreter, LogCapture, MachineLogic, PluginBase, Rec,
@@ -36,13 +37,13 @@ ASSUMPTIONS = ["CancelledError is never injected",
                "after an abort the event's effect is legitimately lost, so later steps are "
                "checked for legality and responsiveness, not against the fault-free twin"]
 
-TOTAL = {"quick": 96, "thorough": 6000}
+TOTAL = {"quick": 96, "thorough": 3000}
 NEV = {"quick": 8, "thorough": 12}
 LIBERR = xs.XStateMachineError
 
 
 def chunks(tier, seed):
-    return mk_chunks(ID, tier, seed, TOTAL[tier], 16, timeout=900 if tier == "quick" else 3000)
+    return mk_chunks(ID, tier, seed, TOTAL[tier], 16, timeout=900 if tier == "quick" else 6000)
 
 
 class Injected(RuntimeError):
@@ -412,7 +413,13 @@ def enum_case(res: Result, spec, idx):
         observers = [p for p in positions if p[0].startswith(("hook.", "sub", "listener"))]
         for _ in range(min(6, len(observers) // 3)):
             targets.append(tuple(frng.sample(observers, 2)))   # pairs of pure observers
+        t_budget = time.time() + (20.0 if spec["tier"] == "quick" else 45.0)
         for tgt in targets:
+            if time.time() > t_budget:
+                # a machine with many timers and a long action list: its remaining fault points are
+                # left out (counted), the ones judged so far stand
+                res.count("positions.case-time-budget-reached")
+                break
             faulty, fx = run_once(engine, case, events, gtables, F, tgt)
             kind = tgt[0][0].split(".")[0] if len(tgt) == 1 else "pair"
             res.evaluations += 1
